@@ -29,12 +29,17 @@ class Timeout(Exception):
     pass
 
 
+class SourceDoesNotCompile(BaseException):
+    """The generated text is not python: a harness bug, never a refusal."""
+
+
 def _alarm(signum, frame):
     raise Timeout("python-level timeout")
 
 
 class time_limit:
-    """SIGALRM based guard for python-level non-termination (eager while loops)."""
+    """Guard for python-level non-termination (eager while loops).  The budget is CPU time of this process
+    (ITIMER_PROF), so a starved machine cannot produce a spurious timeout."""
 
     def __init__(self, seconds):
         self.seconds = seconds
@@ -42,13 +47,13 @@ class time_limit:
     def __enter__(self):
         self.ok = threading.current_thread() is threading.main_thread()
         if self.ok:
-            self.old = signal.signal(signal.SIGALRM, _alarm)
-            signal.setitimer(signal.ITIMER_REAL, self.seconds)
+            self.old = signal.signal(signal.SIGPROF, _alarm)
+            signal.setitimer(signal.ITIMER_PROF, self.seconds)
 
     def __exit__(self, *a):
         if self.ok:
-            signal.setitimer(signal.ITIMER_REAL, 0)
-            signal.signal(signal.SIGALRM, self.old)
+            signal.setitimer(signal.ITIMER_PROF, 0)
+            signal.signal(signal.SIGPROF, self.old)
         return False
 
 
@@ -135,7 +140,10 @@ def load_source(src, tag="p"):
     mod.__file__ = fname
     sys.modules[modname] = mod
     try:
-        code = compile(src, fname, "exec")
+        try:
+            code = compile(src, fname, "exec")
+        except SyntaxError as e:
+            raise SourceDoesNotCompile(str(e)) from e
         exec(code, mod.__dict__)
     except BaseException:
         sys.modules.pop(modname, None)
@@ -149,9 +157,7 @@ def decorate(prog, ranks=None, out_ranks=None):
     src, marks = sg.render(prog, ranks=ranks, out_ranks=out_ranks, with_marks=True)
     try:
         mod, fname, modname = load_source(src)
-    except SyntaxError:
-        raise
-    except Exception as e:  # noqa: BLE001 - the decorator may raise anything; all are refusals
+    except Exception as e:  # noqa: BLE001 - the decorator may raise anything (SyntaxError included): refusals
         r = Refused(e)
         r.src = src
         r.marks = marks
@@ -252,12 +258,36 @@ def build_call_model(loaded, attrs):
     return m
 
 
+def _graph_has_loop(g):
+    for n in g.node:
+        if n.op_type == "Loop":
+            return True
+        for a in n.attribute:
+            if a.type == onnx.AttributeProto.GRAPH and _graph_has_loop(a.g):
+                return True
+    return False
+
+
+def _has_loop(model):
+    if _graph_has_loop(model.graph):
+        return True
+    for f in model.functions:
+        for n in f.node:
+            if n.op_type == "Loop":
+                return True
+            for a in n.attribute:
+                if a.type == onnx.AttributeProto.GRAPH and _graph_has_loop(a.g):
+                    return True
+    return False
+
+
 class Sess:
     """ORT session with a watchdog that terminates a run that does not come back."""
 
     def __init__(self, model):
         self.err = None
         self.sess = None
+        self.has_loop = _has_loop(model)
         try:
             self.sess = real_session(model.SerializeToString())
         except Exception as e:  # noqa: BLE001
@@ -266,20 +296,36 @@ class Sess:
     def run(self, feeds, limit=10.0):
         if self.sess is None:
             return ("err",) + self.err
+        import time
         o = runeq.ort()
         ro = o.RunOptions()
-        timer = threading.Timer(limit, lambda: setattr(ro, "terminate", True))
-        timer.daemon = True
-        timer.start()
+        done = threading.Event()
+        t0 = time.process_time()
+
+        def watchdog():
+            # budget in CPU seconds of this process: robust against a starved machine
+            while not done.wait(0.5):
+                if time.process_time() - t0 > limit:
+                    ro.terminate = True
+                    return
+
+        names = {i.name for i in self.sess.get_inputs()}
+        f2 = {k: v for k, v in feeds.items() if k in names}
+        if not self.has_loop:
+            try:
+                return ("ok", list(self.sess.run(None, f2)))
+            except Exception as e:  # noqa: BLE001
+                return ("err", "run", str(e)[:400])
+        th = threading.Thread(target=watchdog, daemon=True)
+        th.start()
         try:
-            names = {i.name for i in self.sess.get_inputs()}
-            r = self.sess.run(None, {k: v for k, v in feeds.items() if k in names}, ro)
+            r = self.sess.run(None, f2, ro)
             return ("ok", list(r))
         except Exception as e:  # noqa: BLE001
             kind = "timeout" if getattr(ro, "terminate", False) else "run"
             return ("err", kind, str(e)[:400])
         finally:
-            timer.cancel()
+            done.set()
 
 
 def has_attr_ref(graph):
